@@ -91,9 +91,34 @@ func C07(r *vf.Run) {
 				}
 				init := byte(g.Intn(4)) << 4
 				other := g.U8() & 0xC7 // D stays clear: decimal is irrelevant to decoding
-				e.AssumeSEP(asm.Flags(init))
 				var starts []uint32
 				var hist []string
+				// stretches of the program may be emitted into clones that are appended back (fragments
+				// assembled separately); a clone may carry nothing but what the assembler was told to assume
+				var stack []*asm.Emitter
+				push := func() {
+					stack = append(stack, e)
+					e = e.Clone(make([]byte, 512))
+					hist = append(hist, "Clone{")
+					cells["clone:opened"]++
+				}
+				pop := func() {
+					p := stack[len(stack)-1]
+					stack = stack[:len(stack)-1]
+					if e.Len() == 0 {
+						cells["clone:appended-without-code"]++
+					}
+					p.Append(e)
+					e = p
+					hist = append(hist, "}Append")
+				}
+				if g.Intn(4) == 0 {
+					push()
+					e.AssumeSEP(asm.Flags(init))
+					pop()
+				} else {
+					e.AssumeSEP(asm.Flags(init))
+				}
 				trail := fmt.Sprintf("%x", init>>4)
 				ninstr := 1 + g.Intn(60)
 				var pending, defined []string
@@ -144,6 +169,12 @@ func C07(r *vf.Run) {
 								hist = append(hist, fmt.Sprintf("%s(%q)", m.Name, name))
 							}
 						}
+					case k == 4 && g.Intn(3) == 0:
+						if len(stack) < 3 && (len(stack) == 0 || g.Bool()) {
+							push()
+						} else {
+							pop()
+						}
 					case k == 3: // explicit-displacement conditional branch, never taken at run time
 						m := emByName[[]string{"BNE_imm8", "BEQ_imm8", "BPL_imm8"}[g.Intn(3)]]
 						arg := uint32(g.U8())
@@ -191,6 +222,9 @@ func C07(r *vf.Run) {
 				}
 				for _, name := range pending {
 					e.Label(name)
+				}
+				for len(stack) > 0 {
+					pop()
 				}
 				end := e.PC()
 				code := append([]byte(nil), e.Bytes()...)
